@@ -149,7 +149,7 @@ PROPS["C14"] = dict(
 
 PROPS["C17"] = dict(
     level="proof", runs=[dict(bin="c17")],
-    quick=dict(n=2200, shards=16),
+    quick=dict(n=2720, shards=16),
     thorough=dict(n=20000, shards=64, run_timeout=10800, coq_case_timeout=7200),
     trusted_base=[
         "model coq/C17/Model.v of iri/src/relativize.rs and of oxiri 0.2.11 IriParser (positions, resolution) behind sophia_iri::resolve::BaseIri, hand-written over UTF-8 bytes; RFC 3986 5.2 transcribed as resolve_rfc",
@@ -323,7 +323,7 @@ PROPS["C16"] = dict(
 
 PROPS["C18"] = dict(
     level="proof", runs=[dict(bin="c18")],
-    quick=dict(n=540, shards=16),
+    quick=dict(n=760, shards=16),
     thorough=dict(n=20000, shards=128, run_timeout=10800, coq_case_timeout=7200),
     trusted_base=[
         "coq/C18/Model.v: hand transcription of convert_triple / serialize_triples (and the Checked wrapper of the fix) and of rio_xml 0.8.6 formatter.rs/parser.rs and quick-xml 0.36.2 escape.rs/writer.rs; documents compared byte for byte, both parses compared triple by triple",
